@@ -134,6 +134,7 @@ PROPS["C10"] = {
 OP_PROPS["conc.round"] = ["C10"]
 OP_PROPS["gmap.ops"] = ["C18"]
 OP_PROPS["iso.pair"] = ["C09"]
+OP_PROPS["typ.xops"] = ["C11", "C12", "C13"]
 OP_PROPS["hlp.sfv"] = ["C15"]
 OP_PROPS["hlp.mfeq"] = ["C05"]
 OP_PROPS["hlp.mfdiff"] = ["C05"]
